@@ -1,1 +1,401 @@
+(* C20 — lemmas about the model of the separation helpers *)
 From V Require Import Common.NumFacts C20.Model.
+Open Scope Q_scope.
+
+(* ================================================================ list / vector infrastructure *)
+
+Lemma nthq_cons0 x (l : vec) : nthq (x :: l) 0 = x.
+Proof. reflexivity. Qed.
+Lemma nthq_consS x (l : vec) i : nthq (x :: l) (S i) = nthq l i.
+Proof. reflexivity. Qed.
+
+Lemma nthq_overflow (l : vec) i : (length l <= i)%nat -> nthq l i = 0.
+Proof. intros H. unfold nthq. apply nth_overflow. exact H. Qed.
+
+Lemma nthq_upd (l : vec) i j x :
+  nthq (upd l i x) j = if (Nat.eqb i j && Nat.ltb i (length l))%bool then x else nthq l j.
+Proof.
+  unfold nthq.
+  revert i j; induction l as [|h t IH]; intros [|i] [|j]; cbn [upd length nth Nat.eqb andb]; try reflexivity.
+  - destruct (Nat.eqb i j); reflexivity.
+  - rewrite IH.
+    replace (Nat.ltb (S i) (S (length t))) with (Nat.ltb i (length t)).
+    + reflexivity.
+    + destruct (Nat.ltb_spec i (length t)), (Nat.ltb_spec (S i) (S (length t))); auto; lia.
+Qed.
+
+Lemma nthq_upd_same_lt (l : vec) i x : (i < length l)%nat -> nthq (upd l i x) i = x.
+Proof.
+  intros H. rewrite nthq_upd, Nat.eqb_refl. destruct (Nat.ltb_spec i (length l)); [reflexivity|lia].
+Qed.
+
+Lemma nthq_upd_other (l : vec) i j x : i <> j -> nthq (upd l i x) j = nthq l j.
+Proof.
+  intros H. rewrite nthq_upd. destruct (Nat.eqb_spec i j); [contradiction|reflexivity].
+Qed.
+
+Lemma scatter_length v idx vals : length (scatter v idx vals) = length v.
+Proof.
+  revert v vals; induction idx as [|i idx IH]; intros v [|x vals]; simpl; auto.
+  rewrite IH. apply upd_length.
+Qed.
+
+Lemma scatter_c_length v idx c : length (scatter_c v idx c) = length v.
+Proof.
+  revert v; induction idx as [|i idx IH]; intros v; simpl; auto.
+  rewrite IH. apply upd_length.
+Qed.
+
+Lemma gather_length v idx : length (gather v idx) = length idx.
+Proof. apply map_length. Qed.
+
+Lemma nthq_gather v idx k : (k < length idx)%nat -> nthq (gather v idx) k = nthq v (nth k idx 0%nat).
+Proof.
+  revert k; induction idx as [|i idx IH]; intros [|k] H; simpl in *; try lia; try reflexivity.
+  rewrite nthq_consS. apply IH. lia.
+Qed.
+
+Lemma scatter_other v idx vals j : ~ In j idx -> nthq (scatter v idx vals) j = nthq v j.
+Proof.
+  revert v vals; induction idx as [|i idx IH]; intros v [|x vals] H; simpl; auto.
+  rewrite IH.
+  - apply nthq_upd_other. intros E; apply H; left; exact E.
+  - intros E; apply H; right; exact E.
+Qed.
+
+Lemma scatter_c_other v idx c j : ~ In j idx -> nthq (scatter_c v idx c) j = nthq v j.
+Proof.
+  revert v; induction idx as [|i idx IH]; intros v H; simpl; auto.
+  rewrite IH.
+  - apply nthq_upd_other. intros E; apply H; left; exact E.
+  - intros E; apply H; right; exact E.
+Qed.
+
+Lemma scatter_nth v idx vals k :
+  NoDup idx -> length vals = length idx -> (forall i, In i idx -> (i < length v)%nat) ->
+  (k < length idx)%nat ->
+  nthq (scatter v idx vals) (nth k idx 0%nat) = nthq vals k.
+Proof.
+  revert v vals k; induction idx as [|i idx IH]; intros v [|x vals] k ND L B Hk; simpl in *; try lia.
+  inversion ND as [|? ? Hni ND']; subst.
+  destruct k as [|k].
+  - rewrite scatter_other by exact Hni.
+    rewrite nthq_upd_same_lt; [reflexivity | apply B; left; reflexivity].
+  - rewrite nthq_consS. apply IH; auto; try lia.
+    intros j Hj. rewrite upd_length. apply B; right; exact Hj.
+Qed.
+
+Lemma scatter_c_in v idx c j :
+  In j idx -> (j < length v)%nat -> nthq (scatter_c v idx c) j = c.
+Proof.
+  revert v; induction idx as [|i idx IH]; intros v H B; simpl in *; [contradiction|].
+  destruct (in_dec Nat.eq_dec j idx) as [Hin|Hnin].
+  - apply IH; auto. rewrite upd_length; exact B.
+  - destruct H as [E|H]; [subst i|contradiction].
+    rewrite scatter_c_other by exact Hnin. apply nthq_upd_same_lt; exact B.
+Qed.
+
+Lemma nthq_vzero n i : nthq (vzero n) i = 0.
+Proof.
+  unfold nthq, vzero. revert i; induction n as [|n IH]; intros [|i]; simpl; auto.
+Qed.
+
+Lemma vzero_length n : length (vzero n) = n.
+Proof. apply repeat_length. Qed.
+
+Lemma vsub_length a b : length a = length b -> length (vsub a b) = length a.
+Proof. apply map2_length. Qed.
+Lemma vmul_length a b : length a = length b -> length (vmul a b) = length a.
+Proof. apply map2_length. Qed.
+
+(* column sums of a list of vectors *)
+Fixpoint colsum (vs : list vec) (i : nat) : Q :=
+  match vs with [] => 0 | v :: r => nthq v i + colsum r i end.
+
+Lemma vsum_length n vs : (forall v, In v vs -> length v = n) -> length (vsum n vs) = n.
+Proof.
+  induction vs as [|v r IH]; intros H; simpl.
+  - apply vzero_length.
+  - rewrite vadd_length.
+    + apply H; left; reflexivity.
+    + rewrite IH; [apply H; left; reflexivity|]. intros u Hu; apply H; right; exact Hu.
+Qed.
+
+Lemma nthq_vsum n vs i : (forall v, In v vs -> length v = n) -> nthq (vsum n vs) i == colsum vs i.
+Proof.
+  induction vs as [|v r IH]; intros H; simpl.
+  - rewrite nthq_vzero. lra.
+  - rewrite nthq_vadd.
+    + rewrite IH; [lra|]. intros u Hu; apply H; right; exact Hu.
+    + rewrite vsum_length; [apply H; left; reflexivity|]. intros u Hu; apply H; right; exact Hu.
+Qed.
+
+Lemma colsum_nonneg vs i : (forall v, In v vs -> forall j, 0 <= nthq v j) -> 0 <= colsum vs i.
+Proof.
+  induction vs as [|v r IH]; intros H; simpl; [lra|].
+  assert (0 <= nthq v i) by (apply H; left; reflexivity).
+  assert (0 <= colsum r i) by (apply IH; intros u Hu; apply H; right; exact Hu).
+  lra.
+Qed.
+
+(* dot products *)
+Lemma vdot_nil_l m : vdot [] m = 0.
+Proof. reflexivity. Qed.
+Lemma vdot_cons a x m y : vdot (x :: a) (y :: m) = x * y + vdot a m.
+Proof. reflexivity. Qed.
+
+Lemma vdot_vadd a o m : length a = length o -> length a = length m ->
+  vdot (vadd a o) m == vdot a m + vdot o m.
+Proof.
+  revert o m; induction a as [|x a IH]; intros [|y o] [|z m] H1 H2; simpl in *; try discriminate.
+  - unfold vdot; simpl; lra.
+  - unfold vadd; simpl. fold (vadd a o). rewrite !vdot_cons. rewrite IH by lia. lra.
+Qed.
+
+Lemma vdot_upd a m w x : length a = length m -> (w < length a)%nat ->
+  vdot (upd a w x) m == vdot a m + (x - nthq a w) * nthq m w.
+Proof.
+  revert m w; induction a as [|y a IH]; intros [|z m] w H1 H2; simpl in *; try discriminate; try lia.
+  destruct w as [|w]; simpl.
+  - rewrite !vdot_cons, !nthq_cons0. lra.
+  - rewrite !vdot_cons, !nthq_consS. rewrite IH by lia. lra.
+Qed.
+
+Lemma vdot_nonneg a m : length a = length m ->
+  (forall i, 0 <= nthq a i) -> (forall i, 0 <= nthq m i) -> 0 <= vdot a m.
+Proof.
+  revert m; induction a as [|u a IHa]; intros [|v m] H At Mt; cbn [length] in *; try discriminate.
+  - rewrite vdot_nil_l. lra.
+  - rewrite vdot_cons.
+    assert (U : 0 <= u) by exact (At 0%nat). assert (V : 0 <= v) by exact (Mt 0%nat).
+    assert (T : 0 <= vdot a m).
+    { apply IHa; [lia | intros i; exact (At (S i)) | intros i; exact (Mt (S i))]. }
+    nra.
+Qed.
+
+Lemma vdot_ge_term a m w : length a = length m ->
+  (forall i, 0 <= nthq a i) -> (forall i, 0 <= nthq m i) -> nthq a w * nthq m w <= vdot a m.
+Proof.
+  revert m w; induction a as [|y a IH]; intros [|z m] w H Ha Hm; cbn [length] in *; try discriminate.
+  - rewrite vdot_nil_l, nthq_nil. lra.
+  - rewrite vdot_cons.
+    assert (A0 : 0 <= y) by exact (Ha 0%nat).
+    assert (M0 : 0 <= z) by exact (Hm 0%nat).
+    assert (At : forall i, 0 <= nthq a i) by (intros i; exact (Ha (S i))).
+    assert (Mt : forall i, 0 <= nthq m i) by (intros i; exact (Hm (S i))).
+    assert (T : 0 <= vdot a m) by (apply vdot_nonneg; auto; lia).
+    destruct w as [|w].
+    + rewrite !nthq_cons0. nra.
+    + rewrite !nthq_consS. specialize (IH m w ltac:(lia) At Mt). nra.
+Qed.
+
+(* ================================================================ mix_and_split *)
+
+Lemma mix_split_conserves_lemma n ins split :
+  (forall v, In v ins -> length v = n) -> length split = n ->
+  forall i, nthq (fst (mix_and_split n ins split)) i + nthq (snd (mix_and_split n ins split)) i
+            == colsum ins i.
+Proof.
+  intros Hl Hs i. unfold mix_and_split, split_to; simpl.
+  assert (L : length (vsum n ins) = n) by (apply vsum_length; exact Hl).
+  rewrite nthq_vsub by (rewrite vmul_length; lia).
+  rewrite nthq_vsum by exact Hl. lra.
+Qed.
+
+Lemma mix_split_value_lemma n ins split :
+  (forall v, In v ins -> length v = n) -> length split = n ->
+  forall i, nthq (fst (mix_and_split n ins split)) i == nthq split i * colsum ins i.
+Proof.
+  intros Hl Hs i. unfold mix_and_split, split_to; simpl.
+  assert (L : length (vsum n ins) = n) by (apply vsum_length; exact Hl).
+  rewrite nthq_vmul by lia. rewrite nthq_vsum by exact Hl. lra.
+Qed.
+
+Lemma mix_split_nonneg_lemma n ins split :
+  (forall v, In v ins -> length v = n) -> length split = n ->
+  (forall v, In v ins -> forall j, 0 <= nthq v j) ->
+  (forall j, 0 <= nthq split j <= 1) ->
+  forall i, 0 <= nthq (fst (mix_and_split n ins split)) i /\ 0 <= nthq (snd (mix_and_split n ins split)) i.
+Proof.
+  intros Hl Hs Hn Hsp i.
+  pose proof (mix_split_conserves_lemma n ins split Hl Hs i) as C.
+  pose proof (mix_split_value_lemma n ins split Hl Hs i) as V.
+  pose proof (colsum_nonneg ins i Hn) as S. specialize (Hsp i).
+  split; nra.
+Qed.
+
+(* ================================================================ handle_infeasible_flow_rates *)
+
+Lemma qltb_true a b : qltb a b = true <-> a < b.
+Proof.
+  unfold qltb. rewrite negb_true_iff. split; intros H.
+  - destruct (Qlt_le_dec a b) as [L|L]; auto. apply Qle_bool_iff in L. congruence.
+  - destruct (Qle_bool b a) eqn:E; auto. apply Qle_bool_iff in E. lra.
+Qed.
+Lemma qltb_false a b : qltb a b = false <-> b <= a.
+Proof.
+  unfold qltb. rewrite negb_false_iff. apply Qle_bool_iff.
+Qed.
+Lemma qleb_true a b : qleb a b = true <-> a <= b.
+Proof. unfold qleb. apply Qle_bool_iff. Qed.
+Lemma qleb_false a b : qleb a b = false <-> b < a.
+Proof.
+  unfold qleb. split; intros H.
+  - destruct (Qlt_le_dec b a) as [L|L]; auto. apply Qle_bool_iff in L. congruence.
+  - destruct (Qle_bool a b) eqn:E; auto. apply Qle_bool_iff in E. lra.
+Qed.
+
+Definition clip1 (x : Q) : Q := if qltb x 0 then 0 else x.
+Definition clip2 (x m : Q) : Q := if qltb m x then m else x.
+
+Lemma clip_arr_nth mol maxmol k :
+  (forall j, 0 <= nthq maxmol j) ->
+  0 <= nthq (map2 clip2 (map clip1 mol) maxmol) k <= nthq maxmol k.
+Proof.
+  intros Hm. revert maxmol k Hm; induction mol as [|x mol IH]; intros [|m mx] k Hm; simpl.
+  - rewrite !nthq_nil. lra.
+  - rewrite nthq_nil. specialize (Hm k). lra.
+  - rewrite nthq_nil. lra.
+  - destruct k as [|k].
+    + rewrite !nthq_cons0. pose proof (Hm 0%nat) as M; rewrite nthq_cons0 in M.
+      unfold clip2, clip1.
+      destruct (qltb x 0) eqn:E1.
+      * destruct (qltb m 0) eqn:E2; [apply qltb_true in E2|]; lra.
+      * apply qltb_false in E1.
+        destruct (qltb m x) eqn:E2; [lra|apply qltb_false in E2; lra].
+    + rewrite !nthq_consS. apply IH. intros j. exact (Hm (S j)).
+Qed.
+
+Lemma clip_range_lemma mol maxmol strict :
+  (forall j, 0 <= nthq maxmol j) ->
+  c_err (handle_infeasible mol maxmol strict) = None ->
+  forall k, 0 <= nthq (c_arr (handle_infeasible mol maxmol strict)) k <= nthq maxmol k.
+Proof.
+  intros Hm. unfold handle_infeasible.
+  destruct (existsb (fun x => qltb x 0) mol && strict)%bool eqn:E1; simpl; [discriminate|].
+  match goal with |- context [if (?o && strict)%bool then _ else _] => destruct (o && strict)%bool eqn:E2 end;
+    simpl; [discriminate|].
+  intros _ k. apply (clip_arr_nth mol maxmol k Hm).
+Qed.
+
+Lemma clip_upper_lemma mol maxmol strict :
+  c_err (handle_infeasible mol maxmol strict) = None ->
+  forall k, (k < length (c_arr (handle_infeasible mol maxmol strict)))%nat ->
+       nthq (c_arr (handle_infeasible mol maxmol strict)) k <= nthq maxmol k.
+Proof.
+  unfold handle_infeasible.
+  destruct (existsb (fun x => qltb x 0) mol && strict)%bool eqn:E1; simpl; [discriminate|].
+  match goal with |- context [if (?o && strict)%bool then _ else _] => destruct (o && strict)%bool eqn:E2 end;
+    simpl; [discriminate|].
+  intros _. clear E1 E2.
+  generalize (map (fun x => if qltb x 0 then 0 else x) mol) as l.
+  intros l; revert maxmol; induction l as [|x l IH]; intros [|m mx] k Hk; simpl in *; try lia.
+  destruct k as [|k].
+  - rewrite !nthq_cons0. destruct (qltb m x) eqn:E; [lra|apply qltb_false in E; lra].
+  - rewrite !nthq_consS. apply IH. lia.
+Qed.
+
+Lemma existsb_qltb_false mol : (forall k, 0 <= nthq mol k) -> existsb (fun x => qltb x 0) mol = false.
+Proof.
+  induction mol as [|x mol IH]; intros H; simpl; auto.
+  pose proof (H 0%nat) as H0; rewrite nthq_cons0 in H0.
+  destruct (qltb x 0) eqn:E; [apply qltb_true in E; lra|]. simpl.
+  apply IH. intros k. exact (H (S k)).
+Qed.
+
+Lemma map_clip1_id mol : (forall k, 0 <= nthq mol k) -> map (fun x => if qltb x 0 then 0 else x) mol = mol.
+Proof.
+  induction mol as [|x mol IH]; intros H; simpl; auto.
+  pose proof (H 0%nat) as H0; rewrite nthq_cons0 in H0.
+  destruct (qltb x 0) eqn:E; [apply qltb_true in E; lra|].
+  f_equal. apply IH. intros k. exact (H (S k)).
+Qed.
+
+Lemma over_false mol maxmol : length mol = length maxmol -> (forall k, nthq mol k <= nthq maxmol k) ->
+  existsb (fun b : bool => b) (map2 (fun x m => qltb m x) mol maxmol) = false
+  /\ map2 (fun x m => if qltb m x then m else x) mol maxmol = mol.
+Proof.
+  revert maxmol; induction mol as [|x mol IH]; intros [|m mx] L H; simpl in *; try discriminate; auto.
+  pose proof (H 0%nat) as H0; rewrite !nthq_cons0 in H0.
+  destruct (qltb m x) eqn:E; [apply qltb_true in E; lra|]. simpl.
+  destruct (IH mx ltac:(lia) (fun k => H (S k))) as [A B]. split; [exact A|f_equal; exact B].
+Qed.
+
+Lemma clip_feasible_id_lemma mol maxmol strict :
+  length mol = length maxmol -> (forall k, 0 <= nthq mol k <= nthq maxmol k) ->
+  handle_infeasible mol maxmol strict = mkClip mol None 0.
+Proof.
+  intros L H. unfold handle_infeasible.
+  rewrite existsb_qltb_false by (intros k; apply H). simpl.
+  rewrite map_clip1_id by (intros k; apply H).
+  destruct (over_false mol maxmol L (fun k => proj2 (H k))) as [A B].
+  rewrite A, B. simpl. reflexivity.
+Qed.
+
+Lemma existsb_qltb_true mol : existsb (fun x => qltb x 0) mol = true -> exists k, nthq mol k < 0.
+Proof.
+  induction mol as [|x mol IH]; simpl; [discriminate|].
+  destruct (qltb x 0) eqn:E; simpl.
+  - intros _. exists 0%nat. rewrite nthq_cons0. apply qltb_true; exact E.
+  - intros H. destruct (IH H) as [k Hk]. exists (S k). rewrite nthq_consS; exact Hk.
+Qed.
+
+Lemma over_true l maxmol :
+  existsb (fun b : bool => b) (map2 (fun x m => qltb m x) l maxmol) = true ->
+  exists k, nthq maxmol k < nthq l k.
+Proof.
+  revert maxmol; induction l as [|x l IH]; intros [|m mx]; simpl; try discriminate.
+  destruct (qltb m x) eqn:E; simpl.
+  - intros _. exists 0%nat. rewrite !nthq_cons0. apply qltb_true; exact E.
+  - intros H. destruct (IH mx H) as [k Hk]. exists (S k). rewrite !nthq_consS; exact Hk.
+Qed.
+
+(* strict mode returns normally only when nothing had to be changed *)
+Lemma clip_strict_reports_lemma mol maxmol :
+  length mol = length maxmol ->
+  c_err (handle_infeasible mol maxmol true) = None ->
+  c_arr (handle_infeasible mol maxmol true) = mol /\ forall k, 0 <= nthq mol k <= nthq maxmol k.
+Proof.
+  intros L. unfold handle_infeasible. rewrite !andb_true_r.
+  destruct (existsb (fun x => qltb x 0) mol) eqn:E1; simpl; [discriminate|].
+  assert (NN : forall k, 0 <= nthq mol k).
+  { intros k. destruct (Qlt_le_dec (nthq mol k) 0) as [Hlt|]; auto. exfalso.
+    assert (existsb (fun x => qltb x 0) mol = true); [|congruence].
+    apply existsb_exists. exists (nthq mol k). split.
+    - unfold nthq. destruct (Nat.lt_ge_cases k (length mol)) as [Hk|Hk].
+      + apply nth_In; exact Hk.
+      + rewrite nthq_overflow in Hlt by exact Hk. lra.
+    - apply qltb_true; exact Hlt. }
+  rewrite map_clip1_id by exact NN.
+  destruct (existsb (fun b : bool => b) (map2 (fun x m => qltb m x) mol maxmol)) eqn:E2; simpl; [discriminate|].
+  intros _.
+  assert (UP : forall k, nthq mol k <= nthq maxmol k).
+  { clear E1 NN. revert maxmol L E2; induction mol as [|x mol IH]; intros [|m mx] L E2 k; simpl in *; try discriminate.
+    - rewrite !nthq_nil; lra.
+    - destruct (qltb m x) eqn:E; simpl in E2; [discriminate|]. apply qltb_false in E.
+      destruct k as [|k]; [rewrite !nthq_cons0; exact E|rewrite !nthq_consS; apply IH; [lia|exact E2]]. }
+  split.
+  - apply (over_false mol maxmol L UP).
+  - intros k; split; [apply NN|apply UP].
+Qed.
+
+Lemma clip_nonstrict_never_raises_lemma mol maxmol :
+  c_err (handle_infeasible mol maxmol false) = None.
+Proof. unfold handle_infeasible. rewrite !andb_false_r. reflexivity. Qed.
+
+(* a strict raise always means an infeasible entry *)
+Lemma clip_raise_sound_lemma mol maxmol strict e :
+  c_err (handle_infeasible mol maxmol strict) = Some e ->
+  e = EInfeasible /\ strict = true /\
+  ((exists k, nthq mol k < 0) \/ (exists k, nthq maxmol k < nthq (map clip1 mol) k)).
+Proof.
+  unfold handle_infeasible.
+  destruct (existsb (fun x => qltb x 0) mol) eqn:E1; destruct strict; simpl;
+    try (intros H; inversion H; subst; split; [reflexivity|split; [reflexivity|left; apply existsb_qltb_true; exact E1]]).
+  - match goal with |- context [existsb ?f ?l] => destruct (existsb f l) end; simpl; discriminate.
+  - match goal with |- context [existsb ?f (map2 ?g ?a ?b)] => destruct (existsb f (map2 g a b)) eqn:E2 end; simpl;
+      [|discriminate].
+    intros H; inversion H; subst. split; [reflexivity|split; [reflexivity|right]].
+    apply over_true. exact E2.
+  - match goal with |- context [existsb ?f ?l] => destruct (existsb f l) end; simpl; discriminate.
+Qed.
